@@ -210,7 +210,10 @@ func (obj *StandardObject) Receive(s *slip.Scope, message string, args slip.List
 	if s != nil {
 		scope.AddParent(s)
 	}
-	obj.setObjectScope(s)
+	// The bindings of self and of the slots belong to this call. In the
+	// scope of the caller they are seen, and replaced, by every other send
+	// made from that scope or from a routine sharing it.
+	obj.setObjectScope(scope)
 
 	return m.Call(scope, args, depth)
 }
